@@ -161,18 +161,35 @@ func (sc *hcSchema) topSteps() ([]string, []string) {
 	return []string{"root"}, []string{"m"}
 }
 
-// hcGenerate draws a schema of n levels. cfgs: whether explicit config statements are drawn.
+// hcSlim restricts the universe (deeper chains in the thorough tier): data tops only, four
+// placement operators (inline, uses, augment from a, augment from b2), a plain leaf next to the
+// last level.
+var hcSlim bool
+
+var hcSlimOps = []int{opDirect, opUses, opAugment, opAugment2}
+
+// hcGenerate draws a schema of n levels.
 func hcGenerate(n int) *hcSchema {
-	sc := &hcSchema{top: symChoice(nTops)}
+	sc := &hcSchema{}
+	if hcSlim {
+		sc.top = symChoice(2)
+	} else {
+		sc.top = symChoice(nTops)
+	}
 	dataTop := sc.top == topModule || sc.top == topSubmodule
 	steps, nsOf := sc.topSteps()
 	ctx := "m"
 	for i := 0; i < n; i++ {
-		lv := &hcLevel{name: "n" + string([]byte{'1' + byte(i)}), op: symChoice(nOps)}
+		lv := &hcLevel{name: "n" + string([]byte{'1' + byte(i)})}
+		if hcSlim {
+			lv.op = hcSlimOps[symChoice(len(hcSlimOps))]
+		} else {
+			lv.op = symChoice(nOps)
+		}
 		if dataTop {
 			lv.cfg = symChoice(3)
 		}
-		if i == n-1 {
+		if i == n-1 && !hcSlim {
 			lv.extraKind = symChoice(3)
 			if dataTop {
 				lv.extraCfg = symChoice(3)
